@@ -1,6 +1,7 @@
 //go:build verif
 
 //verif:target internal/pkg/finisher/zz_verif_c14_shim.go
+//verif:only zpause
 package finisher
 
 import (
@@ -13,9 +14,17 @@ import (
 func VerifC14SpawnWorker(in, out chan *models.Item, onStart func()) (cancel func(), done <-chan struct{}) {
 	ctx, c := context.WithCancel(context.Background())
 	f := &finisher{ctx: ctx, cancel: c, inputCh: in, sourceFinishedCh: out, sourceProducedCh: out}
+	// The method value is taken whatever the method's type is, and tested at run time: a change of
+	// the unexported worker's signature then fails THIS spawn (nil, nil) instead of the compilation
+	// of every harness binary that links the package.
+	work, ok := any(f.worker).(func(string))
+	if !ok {
+		c()
+		return nil, nil
+	}
 	f.wg.Add(1)
 	d := make(chan struct{})
-	go func() { onStart(); f.worker("c14") }()
+	go func() { onStart(); work("c14") }()
 	go func() { f.wg.Wait(); close(d) }()
 	return c, d
 }
